@@ -136,6 +136,7 @@ type netPlan struct {
 	// instants (µs after the start) at which second copies of set-up frames
 	// arrive: around the moments the two muxers are stopped
 	DupInitAtUs []int `json:"dup_init_at_us,omitempty"`
+	DupTrain    int   `json:"dup_train,omitempty"`
 }
 
 func genNet(rng *vh.Rand) netPlan {
@@ -184,8 +185,11 @@ func (n netPlan) policy(rng *vh.Rand, start time.Time) msgnet.Policy {
 		if len(data) >= 2 && data[1]&3 != 0 && len(n.DupInitAtUs) > 0 && rng.Chance(0.5) {
 			out := []msgnet.Delivery{{Data: data}}
 			for _, at := range n.DupInitAtUs {
-				if d := time.Duration(at)*time.Microsecond - time.Since(start); d > 0 {
-					out = append(out, msgnet.Delivery{Data: data, Delay: d})
+				// a train of copies across the few milliseconds a Stop takes
+				for k := 0; k < n.DupTrain+1; k++ {
+					if d := time.Duration(at+k*230)*time.Microsecond - time.Since(start); d > 0 {
+						out = append(out, msgnet.Delivery{Data: data, Delay: d})
+					}
 				}
 			}
 			return out
@@ -307,6 +311,9 @@ func genProgram(rng *vh.Rand) program {
 		for k := 1 + rng.Intn(4); k > 0; k-- {
 			p.Net.DupInitAtUs = append(p.Net.DupInitAtUs, max(1, p.StopAfter[rng.Intn(2)]*1000+rng.Pick(-500, -50, -1, 0, 0, 1, 20, 100, 300, 1000, 3000)))
 		}
+	}
+	if len(p.Net.DupInitAtUs) > 0 {
+		p.Net.DupTrain = rng.Pick(0, 0, 12, 45)
 	}
 	p.DoubleStop = rng.Chance(0.3)
 	p.CloseDuringInit = rng.Chance(0.2)
